@@ -234,7 +234,10 @@ def segments_of(fn, w):
         raise Top("function has no tail expression")
     tail = strip(body["expr"])
     if tail["k"] != "Path" or "local" not in tail["res"]:
-        raise Top("tail expression is not a local variable", tail)
+        # `expr` as the tail: treat it as a final assignment to a synthetic variable that is then returned
+        RET = -1
+        stmts.append((RET, tail, tail, False))
+        tail = {"k": "Path", "res": {"local": RET, "name": "<result>"}, "sp": tail.get("sp")}
     # liveness before each statement
     n = len(stmts)
     live_after = [None] * n
